@@ -1,10 +1,9 @@
 SPECIFICATION Spec
 CONSTANTS
-  Mode = "corpus"
-  Y0 = 2000
-  Y1 = 2000
-  Batch = 100
+  Mode = "grammar"
+  MutLen = 1
+  MaxTok = 3
+  Batch = 500
   Stride = 1
   Offset = 0
-  PipeLen = 2
 CHECK_DEADLOCK FALSE
